@@ -14,8 +14,14 @@ CHECK = {
         "technique": "property-based testing (rapid, plan-first) with an owned schedule under testing/synctest; oracle from the query log and a closest-k specification",
         "runs": [
             {"name": "engine", "run": "^TestC10_Engine", "checks": {"quick": 4000, "thorough": 20000}, "shards": {"quick": 1, "thorough": 16}},
+            # exported Lookup / ContentLookup of a real instance over the simulated network against scripted discv5 peers (package p_proto)
+            {"name": "net", "package": "p_proto", "run": "^TestC10_Net$", "checks": {"quick": 25, "thorough": 300}, "shards": {"quick": 6, "thorough": 16}},
         ],
-        "rule": "A plan is 0..200 peers, each with an answer function (honest closest-N of partial knowledge, arbitrary subset, duplicates incl. a second "
+        "rule": "[real-instance run] rapid draws 1..24 scripted discv5 peers {FINDNODES answer kind: honest at the asked distances / plus the asker and itself / duplicates / wrong "
+                "distances / undecodable / empty / silent; FINDCONTENT answer kind: ENRs / content / empty content / connection id nobody serves / garbage / empty / silent; known peers; delay}, "
+                "0..5 table seeds, a target, node or content lookup; judged from the peers' request logs: each peer asked at most once, at most 3 requests in flight, result <= 16 distinct supplied "
+                "nodes sorted by distance without the local node and with no closer seed omitted; content result is something a queried peer supplied, not-found iff nobody supplied. "
+                "[engine run] A plan is 0..200 peers, each with an answer function (honest closest-N of partial knowledge, arbitrary subset, duplicates incl. a second "
                 "record version, the asker itself, itself and two fixed peers (cycles), empty, error, error with nodes, 25..40 nodes), a chain of up to "
                 "40 peers ever closer to the target, a target (arbitrary / the local id / a peer's id / next to the local id), 0..30 peers seeded into "
                 "the table, a list of completion choices, optionally a cancellation step (alone or in the same instant as a reply, or before the "
@@ -29,6 +35,6 @@ CHECK = {
             "query functions never return nil nodes (every production query function filters them)",
             "at engine level the asker's own record is an ordinary node of the result (the production worker removes it before the engine sees it; that is checked in the real-instance run)",
         ],
-        "required_classes": {"quick": ["queries>=4-with-order-choice", "adversarial-answer-processed", "cancel-with-queries-in-flight",
+        "required_classes": {"quick": ["content-found", "content-not-found", "node-lookup-queried", "queries>=4-with-order-choice", "adversarial-answer-processed", "cancel-with-queries-in-flight",
                                        "cancel-and-reply-in-the-same-instant", "empty-table-start", "seen>16", "in-flight-reached-3", "peers:61-200", "peers:0"]},
     }
